@@ -5,6 +5,7 @@ def dispatchWrapC (line : String) : String :=
   match (line.trimAscii.toString.splitOn " ") with
   | "lookup" :: args => handleLookup args
   | "asm" :: args => handleAsm args
+  | "asmx" :: args => handleAsmX args
   | _ => "bad-op"
 
 partial def loopWrapC (h : IO.FS.Stream) (out : IO.FS.Stream) : IO Unit := do
